@@ -25,7 +25,7 @@ def run(m, tier='quick'):
             return 'STALE (pattern not found)', 0
         s = s.replace(m['old'], m['new'], m['count'])
         open(p, 'w').write(s)
-        env = dict(os.environ, VF_REPO=d)
+        env = dict(os.environ, VF_REPO=d, VF_OUTDIR=d)
         t0 = time.time()
         r = subprocess.run([os.path.join(ROOT, 'check'), m['prop'], tier], env=env, capture_output=True, text=True)
         out = r.stdout + r.stderr
